@@ -149,6 +149,30 @@ def extra_cases():
     second = opdef(dict(k="try", c=seq([out_site("o0", pv.i(7), pv.i(99)), out_site("o0", pv.i(8), pv.i(99))], {"k": "ret", "e": {"var": 1}}),
                         h={"k": "ret", "e": {"lit": pv.s("caught")}}))
     cases.append((P, [aborting, second], dict(kind="out", alias="o0", expect=("val", pv.i(21), False), only_run=2)))
+    # (c) an opted-in original that runs because its key is missing: the interceptions IT makes are answered from the recording
+    for handler in ("none", "wrap"):
+        P = opdef(seq([in_site("a0", pv.i(1), pv.i(10), handler=handler), out_site("o0", pv.i(5), pv.i(20))],
+                      {"k": "ret", "e": {"lit": pv.s("done")}}))
+        inner = seq([in_site("a0", pv.i(1), pv.i(99), handler=handler), out_site("o0", pv.i(5), pv.i(98))],
+                    {"k": "ret", "e": {"var": 1}})           # the original returns what its nested input answered (var 0 = its argument)
+        probe = dict(k="in", cfg=icfg("zz", handler=handler, run_missing=True), body=inner, args=[{"lit": pv.i(1)}], kwargs=[])
+        Pp = opdef(dict(k="try", c=seq([probe], {"k": "ret", "e": {"var": 0}}), h={"k": "ret", "e": {"lit": pv.s("caught")}}))
+        cases.append((P, [Pp, Pp], dict(kind="in", alias="zz", expect=("val", pv.i(10), True))))
+    # (d) one decorated function (alias with a resolved parameter, fallback aliases given as a list) called for several
+    # parameter values: a call whose key is missing is NOT answered with what an earlier call of the same function got
+    for fbl, vm, want in (([], {"kind": "none"}, ("exn", "KeyMissing", False)), (["q1"], {"kind": "lit", "v": pv.i(0)}, ("val", pv.i(0), False)),
+                          (["q1", "q2"], {"kind": "none"}, ("exn", "KeyMissing", False))):
+        # (the resolved parameter is argument 0, which is NOT captured: the key texts of the two calls differ in the alias only)
+        cfgkw = dict(resolver={"kind": "arg", "i": 0}, cap=[[1, None]], fallbacks={"kind": "list", "l": fbl}, vmiss=vm)
+
+        def site2(store, result):
+            st = in_site("cfg {p}", pv.s(store), result, **cfgkw)
+            st["args"] = [{"lit": pv.s(store)}, {"lit": pv.i(1)}]
+            return st
+        P = opdef(seq([site2("north", pv.i(7))], {"k": "ret", "e": {"lit": pv.s("done")}}))
+        calls = [site2("north", pv.i(99)), site2("south", pv.i(99))]
+        Pp = opdef(dict(k="try", c=seq(calls, {"k": "ret", "e": {"var": 1}}), h={"k": "ret", "e": {"lit": pv.s("caught")}}))
+        cases.append((P, [Pp, Pp], dict(kind="in", alias="cfg {p}", expect=want)))
     return cases
 
 
@@ -201,7 +225,9 @@ def direct(case, obs):
                     stack.append(e["alias"])
                 elif e["e"] == "call":
                     stack.pop()
-                elif e["e"] == "body" and not any(a in opted for a in stack):
+                elif e["e"] == "body" and e["alias"] not in opted:
+                    # also INSIDE an opted-in original that runs: whatever it calls is intercepted and answered from the
+                    # recording or its own policy (tape_recorder.py: `return func(*args, **kwargs)` keeps interception on)
                     depth_ok = False
             if ran and not depth_ok:
                 fails.append(("body-executed-during-replay", "run %d: wrapped bodies ran while replaying: %s" % (i, ran)))
